@@ -1286,8 +1286,8 @@ class Bits:
 
     def _find_lsb0(self, bs: Bits, start: int, end: int, bytealigned: bool) -> Union[Tuple[int], Tuple[()]]:
         # A forward find in lsb0 is very like a reverse find in msb0.
+        # This runs when the generator is first advanced: the lsb0 option may have changed since findall() chose this method.
         assert start <= end
-        assert bitstring.options.lsb0
 
         new_slice = bitstring.bitstore.offset_slice_indices_lsb0(slice(start, end, None), len(self))
         msb0_start, msb0_end = self._validate_slice(new_slice.start, new_slice.stop)
@@ -1342,8 +1342,8 @@ class Bits:
 
     def _findall_lsb0(self, bs: Bits, start: int, end: int, count: Optional[int],
                       bytealigned: bool) -> Iterable[int]:
+        # This runs when the generator is first advanced: the lsb0 option may have changed since findall() chose this method.
         assert start <= end
-        assert bitstring.options.lsb0
 
         new_slice = bitstring.bitstore.offset_slice_indices_lsb0(slice(start, end, None), len(self))
         msb0_start, msb0_end = self._validate_slice(new_slice.start, new_slice.stop)
